@@ -54,6 +54,25 @@ const FRAGS: &[Frag] = &[
     f("\\def\\é{E1}", 0, 0, false, &["edge-name", "local"]),
     f("\\def\\ab{E2}", 0, 0, false, &["edge-name", "local"]),
     f("\\def\\abc{E3}", 0, 0, false, &["edge-name", "local"]),
+    // FIRST and LAST element of every indexed piece of state: registers 0 and 32767 / 255 directly, through
+    // aliases, and as the current value inside an open group (the outer value sits in the save stack)
+    f("\\count0=70 \\count32767=71 \\dimen0=7pt \\dimen32767=8pt \\skip0=7pt plus 1pt \\skip32767=8pt minus 1pt \\toks0={t0}\\toks255={t255}", 0, 0, false, &["first-last", "local"]),
+    f("\\countdef\\cy=0 \\cy=72 \\countdef\\cz=32767 \\cz=73 \\toksdef\\ty=0 \\ty={ty}\\toksdef\\tz=255 \\tz={tz}", 0, 0, false, &["first-last", "alias-variable", "local"]),
+    f("{\\count0=74 \\count32767=75 \\dimen32767=9pt \\skip32767=9pt plus 2fil \\toks0={g0}\\toks255={g255}", 1, 0, true, &["first-last", "local"]),
+    // code tables: characters 0, 127 (low table ends), 128 (high table begins), U+10FFFE (the largest texcraft accepts: its range check is [0, 1114111))
+    f("\\catcode0=11 \\catcode127=11 \\catcode128=11 \\catcode1114110=11 \\mathcode0=1 \\mathcode127=2 \\mathcode128=3 \\mathcode1114110=4 ", 0, 0, false, &["first-last", "high-code", "local"]),
+    // streams 0 and 15 (stream 15 positioned after its first line), first and last element of an allocated array
+    f("\\openin 0 f \\openin 15 g \\read 15 to \\rz ", 0, 0, false, &["first-last", "stream", "read", "local"]),
+    f("\\arr 0=5 \\arr 2=6 ", 0, 0, false, &["first-last", "alloc", "local"]),
+    // a recoverable error: fatal in the default \\errorstopmode (no checkpoint then), recovered and RECORDED in the
+    // state (errormode::Component::errors) after \\scrollmode
+    f(RECOVERABLE_ERROR, 0, 0, false, &["recovered-error"]),
+    // macro shapes: every optional part of a serialised macro (prefix tokens, parameters, replacement) empty in
+    // one fragment and non-empty in another; an empty macro as a saved outer meaning and as an active character
+    f("\\def\\me{}\\def\\gobble#1{}\\def\\mp ab{}", 0, 0, false, &["macro-shape", "local"]),
+    f("\\def\\mn#1#2#3#4#5#6#7#8#9{#9#1}\\def\\mh#1{a##b}\\def\\md xy#1.#2{[#2#1]}", 0, 0, false, &["macro-shape", "macro-params", "local"]),
+    f("\\def\\me{}{\\def\\me{X}", 1, 0, false, &["macro-shape", "local"]),
+    f("\\def~{}", 0, 0, false, &["macro-shape", "active-def", "local"]),
     f("\\countdef\\f=5 \\f=55 ", 0, 0, true, &["alias-variable", "local"]),
     f("\\toksdef\\g=6 \\g={tk}", 0, 0, false, &["alias-variable", "local"]),
     f("\\chardef\\h=72 ", 0, 0, false, &["chardef", "local"]),
@@ -87,12 +106,18 @@ const FRAGS: &[Frag] = &[
     f("\\read 3 to \\r ", 0, 0, false, &["read", "local"]),
 ];
 
+const RECOVERABLE_ERROR: &str = "\\catcode1114111=11 ";
+/// Finding (not in DESIGN §4): a VM that holds a recorded error cannot be serialised to JSON –
+/// `TracedTexError::token_traces` is a `HashMap<Token, _>`, and JSON keys must be strings ("key must be a
+/// string"); MessagePack and bincode are unaffected. Goes through `acc.known` under this id.
+const FINDING_RECORDED_ERROR: &str = "D7b-json-recorded-error";
+
 /// Line 0 of every program (before the first checkpoint): names that the observer reads with \the
 /// must be defined, because \the of an undefined name is a todo!() in texcraft.
 const PRELUDE: &str = "\\countdef\\f=9 \\toksdef\\g=9 \\mathchardef\\i=1 \\chardef\\hh=72 \\newInt\\n \\newIntArray\\arr 3 ";
 
 /// Prints every target. Each item is safe whether or not the name is defined.
-const OBSERVE: &str = ";\\a;\\b;\\c\\hh;\\d\\zz{Z}\\zz;\\e;\\the\\f;\\the\\g;\\h;\\the\\i;\\m12.;\\newname;\\é;\\ab;\\abc;\\firstseeninq;\\the\\n;\\the\\arr 1 ;\\r;\\ifeof 3 c\\else o\\fi;\\the\\count1 ;\\the\\dimen1 ;\\the\\skip1 ;\\the\\toks1 ;\\the\\count5 ;\\the\\toks6 ;\\the\\catcode`\\| ;\\the\\catcode`\\é ;\\the\\mathcode`\\k ;\\the\\mathcode`\\é ;\\the\\endlinechar ;\\the\\globaldefs ;\\the\\year ;\\probefont;~;|;";
+const OBSERVE: &str = ";\\a;\\b;\\c\\hh;\\d\\zz{Z}\\zz;\\e;\\the\\f;\\the\\g;\\h;\\the\\i;\\m12.;\\newname;\\é;\\ab;\\abc;\\firstseeninq;\\me;\\gobble x;\\mp ab;\\mn123456789;\\mh x;\\md xy1.2;\\the\\count0 ;\\the\\count32767 ;\\the\\dimen0 ;\\the\\dimen32767 ;\\the\\skip0 ;\\the\\skip32767 ;\\the\\toks0 ;\\the\\toks255 ;\\the\\catcode0 ;\\the\\catcode127 ;\\the\\catcode128 ;\\the\\catcode1114110 ;\\the\\mathcode0 ;\\the\\mathcode127 ;\\the\\mathcode128 ;\\the\\mathcode1114110 ;\\ifeof 0 c\\else o\\fi;\\ifeof 15 c\\else o\\fi;\\rz;\\the\\arr 0 ;\\the\\arr 2 ;\\the\\n;\\the\\arr 1 ;\\r;\\ifeof 3 c\\else o\\fi;\\the\\count1 ;\\the\\dimen1 ;\\the\\skip1 ;\\the\\toks1 ;\\the\\count5 ;\\the\\toks6 ;\\the\\catcode`\\| ;\\the\\catcode`\\é ;\\the\\mathcode`\\k ;\\the\\mathcode`\\é ;\\the\\endlinechar ;\\the\\globaldefs ;\\the\\year ;\\probefont;~;|;";
 
 /// two plain lines first: a restored lexer that forgets it is past its first line merges them
 const FILE_F: &str = "r1\nr2\n{r3\nr4}\nr5\n";
@@ -245,6 +270,8 @@ fn first_diff(a: &Value, b: &Value, path: String) -> Option<String> {
 
 #[derive(Debug)]
 struct Failure {
+    /// explained by the known finding FINDING_RECORDED_ERROR (predicate on the case + adjusted expectation)
+    known: bool,
     boundary: usize,
     format: Option<Format>,
     expected: String,
@@ -254,7 +281,7 @@ struct Failure {
 
 /// Everything one execution of a case can find. `reference_ok` = the un-checkpointed runs agree.
 fn execute_case(c: &Case, acc: Option<&mut Acc>) -> Vec<Failure> {
-    let mut fails = vec![];
+    let mut fails: Vec<Failure> = vec![];
     let mut local = Acc::default();
     let all: Vec<String> = c.p.iter().chain(c.q.iter()).cloned().collect();
     // single-source run of the whole program
@@ -325,7 +352,7 @@ fn execute_case(c: &Case, acc: Option<&mut Acc>) -> Vec<Failure> {
             let mut vm2 = match r {
                 Ok(v) => v,
                 Err(p) => {
-                    fails.push(Failure { boundary: k, format: Some(fmt), expected: "serialise + deserialise succeed".into(), observed: p.describe(), note: "panic in serialise/deserialise".into() });
+                    fails.push(Failure { known: false, boundary: k, format: Some(fmt), expected: "serialise + deserialise succeed".into(), observed: p.describe(), note: "panic in serialise/deserialise".into() });
                     continue;
                 }
             };
@@ -342,18 +369,34 @@ fn execute_case(c: &Case, acc: Option<&mut Acc>) -> Vec<Failure> {
                             local.class(&format!("restored VM serialises differently ({fmt:?}): {}", vcore::clip(&first_diff(v0, &v2, "vm".into()).unwrap_or_default(), 160)));
                         }
                     }
-                    Err(p) => fails.push(Failure { boundary: k, format: Some(fmt), expected: "the restored VM can be serialised".into(), observed: p.describe(), note: "panic serialising the restored VM".into() }),
+                    Err(p) => fails.push(Failure { known: false, boundary: k, format: Some(fmt), expected: "the restored VM can be serialised".into(), observed: p.describe(), note: "panic serialising the restored VM".into() }),
                 }
             }
             match vcore::catch(|| vtex::run(&mut vm2, &p2)) {
                 Ok(got) => {
                     if got != reference {
-                        fails.push(Failure { boundary: k, format: Some(fmt), expected: reference.show(), observed: got.show(), note: "continuation after the checkpoint differs from the continuation without it".into() });
+                        fails.push(Failure { known: false, boundary: k, format: Some(fmt), expected: reference.show(), observed: got.show(), note: "continuation after the checkpoint differs from the continuation without it".into() });
                     }
                 }
                 Err(p) if p.cutoff => local.cutoffs += 1,
-                Err(p) => fails.push(Failure { boundary: k, format: Some(fmt), expected: reference.show(), observed: p.describe(), note: "continuation after the checkpoint panics".into() }),
+                Err(p) => fails.push(Failure { known: false, boundary: k, format: Some(fmt), expected: reference.show(), observed: p.describe(), note: "continuation after the checkpoint panics".into() }),
             }
+        }
+    }
+    // known finding: predicate on the CASE (an error was recorded before the boundary: \\scrollmode precedes
+    // the error fragment) + adjusted expectation (exactly the JSON serialiser refuses the non-string map key;
+    // the other formats must be transparent as always)
+    for f in fails.iter_mut() {
+        let recorded = {
+            let lines = &c.p[..f.boundary.min(c.p.len())];
+            match (lines.iter().position(|l| l.contains("\\scrollmode")), lines.iter().rposition(|l| l.as_str() == RECOVERABLE_ERROR)) {
+                (Some(a), Some(b)) => a < b,
+                _ => false,
+            }
+        };
+        let json_serialiser = (f.format == Some(Format::Json) && f.note == "panic in serialise/deserialise") || f.note == "panic serialising the restored VM";
+        if recorded && json_serialiser && f.observed.contains("key must be a string") {
+            f.known = true;
         }
     }
     if let Some(acc) = acc {
@@ -369,14 +412,21 @@ fn run_case(idx: u64, c: &Case, nontrivial_boundaries: u64, acc: &mut Acc) {
     if nontrivial_boundaries > 0 {
         acc.nontrivial();
     }
-    let fails = execute_case(c, Some(&mut *acc));
+    let mut fails = execute_case(c, Some(&mut *acc));
     if fails.is_empty() {
         return;
     }
+    if fails.iter().all(|f| f.known) {
+        let f0 = &fails[0];
+        acc.class("known finding: JSON cannot serialise a VM that holds a recorded error");
+        acc.known(FINDING_RECORDED_ERROR, idx, || json!({"family": c.family, "sel": c.sel, "P": c.p, "first_boundary": c.first_boundary, "checkpoint_after_line": f0.boundary, "format": "Json", "observed": f0.observed}));
+        return;
+    }
+    fails.retain(|f| !f.known);
     // the subject's hash order cannot be seeded: re-execute, any failing execution is a counterexample
     let mut failing = 1;
     for _ in 1..REEXEC {
-        if !execute_case(c, None).is_empty() {
+        if execute_case(c, None).iter().any(|f| !f.known) {
             failing += 1;
         }
     }
@@ -462,6 +512,8 @@ fn count_state(frs: &[&Frag], acc: &mut Acc) -> bool {
         ("alloc", "allocated_variable"),
         ("macro-params", "macro_with_parameters"),
         ("empty-name", "empty_control_sequence_name_defined"),
+        ("first-last", "first_or_last_element_of_indexed_state_set"),
+        ("macro-shape", "macro_with_an_empty_part_defined"),
         ("edge-name", "non_ascii_or_prefix_name_defined"),
     ] {
         if tags.contains(&t) {
@@ -485,7 +537,7 @@ fn frag_case(family: &'static str, alphabet: &[usize], digits: &[u64], json_last
     p.extend(frs.iter().map(|f| f.text.to_string()));
     let n = p.len();
     Some((
-        Case { family, p, q: observer(c, g), first_boundary: 2, json_boundaries: if json_last { vec![n] } else { vec![] }, files: &[("f.tex", FILE_F)], sel: json!({"alphabet": alphabet, "digits": digits, "json_last": json_last}) },
+        Case { family, p, q: observer(c, g), first_boundary: 2, json_boundaries: if json_last { vec![n] } else { vec![] }, files: &[("f.tex", FILE_F), ("g.tex", "g1\ng2\n")], sel: json!({"alphabet": alphabet, "digits": digits, "json_last": json_last}) },
         frs,
     ))
 }
@@ -513,6 +565,9 @@ fn run_frag_family(ctx: &mut Ctx, name: &'static str, bounds: &str, alphabet: Ve
             Some((mut case, frs)) => {
                 if only_last_boundary {
                     case.first_boundary = case.p.len();
+                }
+                if name == "triples-full" {
+                    case.first_boundary = 3;
                 }
                 if len == 1 {
                     // the 1-fragment programs also checkpoint the state left by the prelude line alone
@@ -608,7 +663,7 @@ fn main() {
     if quick {
         run_frag_family(&mut ctx, "triples-core", &format!("every program of 3 fragments over the core alphabet ({} fragments, one per state component); checkpoint after each of the 3 lines; three formats", core.len()), core.clone(), 3, JsonOracle::Never, false);
     } else {
-        run_frag_family(&mut ctx, "triples-full", &format!("every program of 3 fragments over the full alphabet ({} fragments); checkpoint after each of the 3 lines; three formats; canonical-JSON oracle at the last boundary of the all-core programs", all.len()), all.clone(), 3, JsonOracle::CoreOnly, false);
+        run_frag_family(&mut ctx, "triples-full", &format!("every program of 3 fragments over the full alphabet ({} fragments); checkpoint after line 2 and after line 3 (the state after line 1 with every 1-fragment continuation is in pairs-full); three formats; canonical-JSON comparison at the last boundary of the all-core programs", all.len()), all.clone(), 3, JsonOracle::CoreOnly, false);
         run_frag_family(&mut ctx, "quads-core", &format!("every program of 4 fragments over the core alphabet ({} fragments); checkpoint after each of the 4 lines; three formats", core.len()), core.clone(), 4, JsonOracle::Never, false);
     }
     // F4: open \read streams
@@ -660,6 +715,8 @@ fn main() {
         ("font_selected", "a font selector ran before the checkpoint"),
         ("allocated_variable", "\\newInt / \\newIntArray variable assigned"),
         ("macro_with_parameters", "macro with delimited and undelimited parameters"),
+        ("first_or_last_element_of_indexed_state_set", "register 0 / 32767 / 255, code-table entry 0 / 127 / 128 / U+10FFFE, stream 0 / 15 or array element first / last set before the checkpoint"),
+        ("macro_with_an_empty_part_defined", "a macro with empty replacement text, prefix-only, 9 parameters or ## defined before the checkpoint"),
         ("empty_control_sequence_name_defined", "the empty control-sequence name is defined before the checkpoint and lexed again from source text after it"),
         ("non_ascii_or_prefix_name_defined", "a one-character non-ASCII name or a name that is a prefix of another name is defined before the checkpoint"),
     ] {
